@@ -82,7 +82,17 @@ KNOWN_CARRY = "multiframe:per-thread-accumulator-not-reset-between-frames"
 TUPLE_KEY = "atom_indices:tuple-used-as-numpy-multidimensional-index"
 
 
+# thorough tier: every 30-th case also runs in a worker whose extensions are ASan/UBSan-instrumented (vlib/sanitize.py)
+ASAN_EVERY = {"quick": 0, "thorough": 30}
+GROUPS = {"thorough": [dict(name="asan", flavour="asan", workers=2)]}
+
+
 def gen_cases(tier, seed):
+    from vlib.gen import common as _common
+    return _common.with_asan_slice(_gen_cases(tier, seed), ASAN_EVERY[tier])
+
+
+def _gen_cases(tier, seed):
     n = NCASES[tier]
     for i in range(n):
         rng = common.rng_for("C13", seed, i)
